@@ -236,6 +236,7 @@ func checkC13(t *testing.T, env *report.Env, rep *report.Report) {
 	fileCacheCrashes(rep)
 	cacheFailures(rep)
 	ownCacheValues(rep)
+	failedStart(rep)
 	shutdownFlush(rep)
 }
 
@@ -582,6 +583,63 @@ func ownCacheValues(rep *report.Report) {
 				}
 			}
 		}
+	}
+	sec.States, sec.Transitions = sec.Evaluations, sec.Evaluations
+}
+
+// failedStart: a start that gives up (a declared secret cannot be obtained before the caller's context
+// ends) must leave the cache usable - whatever it holds afterwards is one complete document that the
+// store itself and the file-backed client accept, and the values it held before are still served from it
+// when the service is down.
+func failedStart(rep *report.Report) {
+	sec := rep.Add(&report.Section{Name: "cache-after-a-failed-start", Engine: "enum", Exhaustive: true, Extra: map[string]int64{},
+		Rule: "cache {alpha v1} (also: alpha and gamma), a start declaring alpha, beta (and gamma) where beta can never be obtained and the context ends after a few retry rounds, so NewStore fails; then the cache document must be well-formed in the documented shape (no entry without a secret), and a start declaring only what the cache held, with the service unreachable, must succeed and serve those values; non-trivial = all"})
+	for _, withGamma := range []bool{false, true} {
+		sec.Evaluations++
+		sec.Nontrivial++
+		desc := fmt.Sprintf("cache holds gamma too=%v", withGamma)
+		vals := map[string][]byte{"alpha": []byte("one"), "gamma": []byte("three")}
+		held := []string{"alpha"}
+		doc := `{"alpha":{"secret":{"Value":"` + b64("one") + `","Version":1},"lastAccess":"5"}`
+		if withGamma {
+			doc += `,"gamma":{"secret":{"Value":"` + b64("three") + `","Version":1},"lastAccess":"5"}`
+			held = append(held, "gamma")
+		}
+		doc += "}"
+		c := &HCache{Data: []byte(doc)}
+		cl := &valueClient{vals: vals}
+		ctx, cancel := context.WithTimeout(context.Background(), 60*time.Millisecond)
+		declared := []string{"alpha", "beta"}
+		if withGamma {
+			declared = append(declared, "gamma")
+		}
+		st, err := setec.NewStore(ctx, setec.StoreConfig{Client: cl, Secrets: declared, Cache: c, PollInterval: -1, Logf: func(string, ...any) {}})
+		cancel()
+		if err == nil {
+			st.Close()
+			rep.Violate(sec.Name, "failed-start/harness: "+desc, desc+": NewStore succeeded although beta does not exist", nil)
+			continue
+		}
+		bad := func(kind, msg string) {
+			rep.Violate(sec.Name, "failed-start/"+kind+": "+desc, desc+": after a start that gave up ("+report.Clip(err.Error(), 80)+"): "+msg, map[string]any{"cache": string(c.Data)})
+		}
+		if !wellFormed(c.Data) {
+			bad("cache-not-well-formed", fmt.Sprintf("the cache holds %q, which is not a document of the documented shape", report.Clip(string(c.Data), 200)))
+		}
+		cl.down = true
+		ctx2, cancel2 := context.WithTimeout(context.Background(), 3*time.Second)
+		st2, err2 := setec.NewStore(ctx2, setec.StoreConfig{Client: cl, Secrets: held, Cache: c, PollInterval: -1, Logf: func(string, ...any) {}})
+		cancel2()
+		if err2 != nil {
+			bad("cache-unusable", fmt.Sprintf("a start from the cache (%q) with the service unreachable fails: %v", report.Clip(string(c.Data), 200), err2))
+			continue
+		}
+		for _, n := range held {
+			if got := string(st2.Secret(n).Get()); got != string(vals[n]) {
+				bad("cache-value", fmt.Sprintf("%q from the cache is %q, was %q", n, got, vals[n]))
+			}
+		}
+		st2.Close()
 	}
 	sec.States, sec.Transitions = sec.Evaluations, sec.Evaluations
 }
